@@ -126,9 +126,13 @@ pub fn unit_cli(o: &mut Out, tier: &str, r: &mut Rng) {
                                 // the bytes, and the canonical form of the value they decode to (compact,
                                 // keys in byte order): a differently formatted file still decodes to the same result
                                 let canon = serde_json::from_slice::<serde_json::Value>(&b).ok().and_then(|v| serde_json::to_vec(&v).ok());
+                                // D1: the real decoder (serde, into the library's own result type) gives exactly the
+                                // library's range result; the model's side of this field is its own decoder on its
+                                // own rendering (Thm C19.decode_render)
+                                let dec = match serde_json::from_slice::<Ranged>(&b) { Ok(d) => d == c.library(), Err(_) => false };
                                 match canon {
-                                    Some(c) => format!("J {} {:016x} {} {:016x}", b.len(), fnv1a(&b), c.len(), fnv1a(&c)),
-                                    None => format!("J {} {:016x} 0 NOTJSON", b.len(), fnv1a(&b)),
+                                    Some(c) => format!("J {} {:016x} {} {:016x} D{}", b.len(), fnv1a(&b), c.len(), fnv1a(&c), dec as u8),
+                                    None => format!("J {} {:016x} 0 NOTJSON D{}", b.len(), fnv1a(&b), dec as u8),
                                 }
                             }
                             Err(_) => "NOFILE".into(),
